@@ -84,7 +84,12 @@ type jUse struct {
 	GoVal    *jStruct `json:"go_val"`
 	ValSlice bool     `json:"val_slice"`
 }
+type jProg struct {
+	Name string `json:"name"`
+	File string `json:"file"`
+}
 type jLayout struct {
+	Progs    []jProg           `json:"progs"`
 	CStructs []jStruct         `json:"c_structs"`
 	CMaps    []jMap            `json:"c_maps"`
 	Uses     []jUse            `json:"uses"`
@@ -492,7 +497,7 @@ type runner struct {
 
 var runners = map[string]*runner{}
 
-func cRun(prog, entry string, frame []byte, canned ...string) (map[string][]string, string) {
+func runnerFor(prog string) *runner {
 	rn, ok := runners[prog]
 	if !ok {
 		dir := os.Getenv("VERIF_CKEYS_DIR")
@@ -509,6 +514,11 @@ func cRun(prog, entry string, frame []byte, canned ...string) (map[string][]stri
 		rn = &runner{cmd: cmd, in: in, out: bufio.NewReaderSize(out, 1<<17)}
 		runners[prog] = rn
 	}
+	return rn
+}
+
+func cRun(prog, entry string, frame []byte, canned ...string) (map[string][]string, string) {
+	rn := runnerFor(prog)
 	line := entry + " " + hex.EncodeToString(frame)
 	for _, c := range canned {
 		line += " " + c
@@ -642,6 +652,13 @@ func (r *run) Do(op string) string {
 		return r.doPercpu(f)
 	case "pget":
 		return r.doPget(f)
+	case "nput":
+		return r.doNput(f)
+	case "cfg":
+		if len(f) == 4 && f[1] == "antispoof" && f[2] == "setmode" {
+			return r.cfgAntispoof(f[3])
+		}
+		return "badop"
 	case "x":
 		if err := r.managers(); err != nil {
 			return "err setup " + strings.ReplaceAll(err.Error(), " ", "_")
@@ -928,6 +945,154 @@ func (r *run) doPget(f []string) string {
 		parts = append(parts, hx0(getLeaf(l)))
 	}
 	return "v=" + strings.Join(parts, ",")
+}
+
+// cDecode asks the natively compiled C code what it reads out of `raw` as `struct name`, member by member
+// (ckeys_main.c `@decode`, decoders generated by extractlayout): "c.<member>=<decimal | x<hex>> …"
+func cDecode(name string, raw []byte) string {
+	seen := map[string]bool{}
+	for _, p := range layout.Progs {
+		if seen[p.File] {
+			continue
+		}
+		seen[p.File] = true
+		rn := runnerFor(p.File)
+		if _, err := io.WriteString(rn.in, "@decode "+name+" "+hex.EncodeToString(raw)+"\n"); err != nil {
+			fatal("native runner %s died: %v", p.File, err)
+		}
+		resp, err := rn.out.ReadString('\n')
+		if err != nil {
+			fatal("native runner %s died on @decode: %v", p.File, err)
+		}
+		resp = strings.TrimSpace(resp)
+		if strings.HasPrefix(resp, "error decode struct") {
+			continue
+		}
+		if !strings.HasPrefix(resp, "dec") {
+			return "c.err=" + strings.ReplaceAll(resp, " ", "_")
+		}
+		var parts []string
+		for _, t := range strings.Fields(resp)[1:] {
+			parts = append(parts, "c."+t)
+		}
+		return strings.Join(parts, " ")
+	}
+	return "c.err=no_decoder_for_" + name
+}
+
+func setByName(v reflect.Value, path string, val string) error {
+	for _, part := range strings.Split(path, ".") {
+		if v.Kind() != reflect.Struct {
+			return fmt.Errorf("%s: not a struct", path)
+		}
+		v = v.FieldByName(part)
+		if !v.IsValid() {
+			return fmt.Errorf("no field %s", path)
+		}
+	}
+	if strings.HasPrefix(val, "x") {
+		b, err := hex.DecodeString(val[1:])
+		if err != nil {
+			return err
+		}
+		return setLeaf(v, b)
+	}
+	n, err := strconv.ParseUint(val, 10, 64)
+	if err != nil {
+		return err
+	}
+	switch v.Kind() {
+	case reflect.Uint8, reflect.Uint16, reflect.Uint32, reflect.Uint64:
+		v.SetUint(n)
+		return nil
+	}
+	return fmt.Errorf("field %s is not an unsigned integer", path)
+}
+
+func (r *run) valStructName(mapName string) string {
+	return strings.TrimPrefix(cmaps[mapName].ValType, "struct ")
+}
+
+// nput <map> <keyType> <valType> k=<leaf,…> <GoField>=<value> …: a value whose fields are set BY GO NAME through the
+// real Go type, written through cilium into the real map; the raw bytes and what the compiled C code reads out of
+// them member by member
+func (r *run) doNput(f []string) string {
+	if len(f) < 5 {
+		return "badop"
+	}
+	m, err := r.kmap(f[1])
+	if err != nil {
+		return "err " + strings.ReplaceAll(err.Error(), " ", "_")
+	}
+	kl, err := parseLeaves(strings.TrimPrefix(f[4], "k="))
+	if err != nil {
+		return "badop"
+	}
+	k, err := newValue(f[2], kl)
+	if err != nil {
+		return "badop " + strings.ReplaceAll(err.Error(), " ", "_")
+	}
+	vt, ok := registry[f[3]]
+	if !ok || vt.Kind() != reflect.Struct {
+		return "badop type"
+	}
+	v := reflect.New(vt)
+	for _, a := range f[5:] {
+		name, val, ok := strings.Cut(a, "=")
+		if !ok {
+			return "badop"
+		}
+		if err := setByName(v.Elem(), name, val); err != nil {
+			return "badop " + strings.ReplaceAll(err.Error(), " ", "_")
+		}
+	}
+	clear(m)
+	if err := m.Put(k.Interface(), v.Interface()); err != nil {
+		return classify(err)
+	}
+	var rv []byte
+	if m.Type() == ebpf.Array {
+		rk := make([]byte, 4)
+		binary.LittleEndian.PutUint32(rk, uint32(k.Elem().Uint()))
+		rv, err = m.LookupBytes(rk)
+		if err != nil || rv == nil {
+			return "err readback"
+		}
+	} else {
+		var ok bool
+		_, rv, ok = one(m)
+		if !ok {
+			return "err readback"
+		}
+	}
+	return "v=" + hx0(rv) + " " + cDecode(r.valStructName(f[1]), rv)
+}
+
+// cfg antispoof setmode <n>: the REAL Manager.SetMode on the real antispoof_config map; the bytes it wrote and
+// the default_mode / log_violations the compiled C code reads out of them
+func (r *run) cfgAntispoof(mode string) string {
+	if err := r.managers(); err != nil {
+		return "err setup"
+	}
+	n, err := strconv.Atoi(mode)
+	if err != nil {
+		return "badop"
+	}
+	m, err := r.kmap("antispoof_config")
+	if err != nil {
+		return "err map"
+	}
+	if err := m.Put(uint32(0), make([]byte, cmaps["antispoof_config"].ValSize)); err != nil {
+		return "err reset"
+	}
+	if err := r.asMgr.SetMode(antispoof.Mode(n)); err != nil {
+		return classify(err)
+	}
+	rv, err := m.LookupBytes(uint32(0))
+	if err != nil || rv == nil {
+		return "err readback"
+	}
+	return "v=" + hx0(rv) + " " + cDecode(r.valStructName("antispoof_config"), rv)
 }
 
 // possibleCPUs parses /sys/devices/system/cpu/possible ("0-15", "0,2-3")
@@ -1546,6 +1711,50 @@ func (comp) Gen(r *rand.Rand, tier string, emit func([]string)) {
 		}
 	}
 	emit([]string{"new", "percpu nat", "percpu qos", "percpu antispoof"})
+	// ---- fields BY NAME: every struct value the Go code writes, each data field alone and all together with distinct
+	// values, decoded member by member by the compiled C code (two same-width fields swapped on one side decode swapped)
+	seenN := map[string]bool{}
+	for _, u := range layout.Uses {
+		m := cmaps[u.Map]
+		if u.GoVal == nil || !(u.Op == "Put" || u.Op == "Update") || seenN[u.Map+u.GoVal.Name] {
+			continue
+		}
+		vt, ok := registry[u.GoVal.Name]
+		if !ok || vt.Kind() != reflect.Struct || !strings.HasPrefix(m.ValType, "struct ") {
+			continue
+		}
+		if _, ok := registry[u.GoKey.Name]; !ok {
+			continue
+		}
+		seenN[u.Map+u.GoVal.Name] = true
+		var names []string
+		var vals []string
+		i := 0
+		for _, gf := range u.GoVal.Fields {
+			if gf.Norm == "_" {
+				continue
+			}
+			i++
+			switch gf.Kind {
+			case "int":
+				names, vals = append(names, gf.Name), append(vals, strconv.Itoa(i))
+			case "bytes":
+				names, vals = append(names, gf.Name), append(vals, "x"+strings.Repeat(fmt.Sprintf("%02x", i), gf.Width))
+			}
+		}
+		head := fmt.Sprintf("nput %s %s %s k=%s", u.Map, u.GoKey.Name, u.GoVal.Name, keyFor(r, m, u.GoKey))
+		seq := []string{"new"}
+		all := head
+		for j := range names {
+			seq = append(seq, head+" "+names[j]+"="+vals[j])
+			all += " " + names[j] + "=" + vals[j]
+		}
+		seq = append(seq, all)
+		emit(seq)
+	}
+	// ---- the anti-spoofing configuration through the real SetMode, every mode
+	emit([]string{"new", "cfg antispoof setmode 0", "cfg antispoof setmode 1", "cfg antispoof setmode 2", "cfg antispoof setmode 3",
+		"cfg antispoof setmode 2", "cfg antispoof setmode 0"})
 	// ---- the real managers against the natively compiled programs
 	h := hex.EncodeToString
 	for n := 0; n < 40*scale; n++ {
